@@ -17,7 +17,7 @@ import (
 	erpc "github.com/henrylee2cn/erpc/v6"
 )
 
-const settleTimeout = 8 * time.Second
+const settleTimeout = 15 * time.Second
 
 // ---- recording plugin: hook verdicts, disconnect-hook counter, session identities ----
 
@@ -31,31 +31,21 @@ type recPlugin struct {
 	lastID string
 	discs  map[interface{}]int
 	starts map[interface{}]int
+	pos    int       // position of this plugin among the accept/dial plugins of its peer
+	outs   []hookOut // programmed outcome per plugin for the next accept / dial (hooks.go)
+	ran    []int     // calls per plugin since the last program()
+	did    []didOut  // outcomes produced since the last program(), in call order
 }
 
 func newRec() *recPlugin {
 	return &recPlugin{discs: map[interface{}]int{}, starts: map[interface{}]int{}}
 }
 func (r *recPlugin) Name() string { return "c07rec" }
-func (r *recPlugin) hook(s erpc.PreSession, id string) *erpc.Status {
-	r.mu.Lock()
-	defer r.mu.Unlock()
-	r.last = interface{}(s)
-	r.lastID = id
-	r.hooked = append(r.hooked, interface{}(s))
-	if r.setID && r.nextID != "" {
-		s.SetID(r.nextID)
-	}
-	if r.reject {
-		return erpc.NewStatus(403, "rejected by hook", "")
-	}
-	return nil
-}
 func (r *recPlugin) PostAccept(s erpc.PreSession) *erpc.Status {
-	return r.hook(s, s.RemoteAddr().String())
+	return r.hookAt(r.pos, s, s.RemoteAddr().String())
 }
 func (r *recPlugin) PostDial(s erpc.PreSession, isRedial bool) *erpc.Status {
-	return r.hook(s, s.LocalAddr().String())
+	return r.hookAt(r.pos, s, s.LocalAddr().String())
 }
 func (r *recPlugin) PostDisconnect(s erpc.BaseSession) *erpc.Status {
 	r.mu.Lock()
@@ -113,6 +103,8 @@ type pair struct {
 	n             int
 	p             erpc.Session // nil when the hooks refused it
 	key           interface{}  // identity of the P-side session (also for refused ones)
+	obj           erpc.Session // the P-side session object as its hooks saw it (also for refused ones)
+	hookFail      string       // what the first accept/dial hook that did not return OK did ("" = all agreed)
 	q             erpc.Session
 	qconn         net.Conn
 	pconn         net.Conn // nil for dialled sessions
@@ -128,11 +120,27 @@ type world struct {
 	idStr map[int64]string
 	ids   []int64
 	lis   net.Listener
+	k     int          // number of accept/dial plugins of P
+	plis  net.Listener // listener served by P itself (listener accept path), opened on first use
+	paddr string
+	pdown bool // P.Close() was called
 }
 
-func newWorld() *world {
-	w := &world{rec: newRec(), qrec: newRec(), idStr: map[int64]string{}}
-	w.P = erpc.NewPeer(erpc.PeerConfig{}, w.rec)
+func newWorld() *world { return newWorldK(1, 0) }
+
+// newWorldK: P carries k accept/dial plugins, the recording plugin at position pos.
+func newWorldK(k, pos int) *world {
+	w := &world{rec: newRec(), qrec: newRec(), idStr: map[int64]string{}, k: k}
+	w.rec.pos = pos
+	var plugs []erpc.Plugin
+	for i := 0; i < k; i++ {
+		if i == pos {
+			plugs = append(plugs, w.rec)
+		} else {
+			plugs = append(plugs, &hookPlug{w.rec, i})
+		}
+	}
+	w.P = erpc.NewPeer(erpc.PeerConfig{}, plugs...)
 	w.Q = erpc.NewPeer(erpc.PeerConfig{}, w.qrec)
 	w.P.RouteCall(new(T))
 	w.Q.RouteCall(new(T))
@@ -146,8 +154,22 @@ func newWorld() *world {
 	return w
 }
 
+// ensureListener opens a listener and hands it to P's own accept loop (serveListener).
+func (w *world) ensureListener() {
+	if w.plis != nil {
+		return
+	}
+	l, err := net.Listen("tcp", "127.0.0.1:0")
+	Must(err)
+	w.plis, w.paddr = l, l.Addr().String()
+	go erpc.VerifServeListener(w.P, l)
+}
+
 func (w *world) destroy() {
 	w.lis.Close()
+	if w.plis != nil {
+		w.plis.Close()
+	}
 	for _, pr := range w.pairs {
 		if pr.p != nil {
 			pr.p.Close()
@@ -205,6 +227,27 @@ func (w *world) settle() bool {
 	})
 }
 
+// unsettled says what keeps the world from being quiescent (for the quiescence report).
+func (w *world) unsettled() string {
+	var l []string
+	name := func(s erpc.Session) string {
+		if s == nil {
+			return "none"
+		}
+		return erpc.VerifStatusName(erpc.VerifSessionStatus(s))
+	}
+	for _, pr := range w.pairs {
+		pdead := pr.p == nil || isClosed(pr.p)
+		qdead := pr.q == nil || isClosed(pr.q)
+		if pdead != qdead || (pr.p != nil && transient(pr.p)) || (pr.q != nil && transient(pr.q)) {
+			l = append(l, fmt.Sprintf("session %d: local %s, remote end %s", pr.n, name(pr.p), name(pr.q)))
+		}
+	}
+	d := GoroutineDump()
+	l = append(l, fmt.Sprintf("goroutines in closeLocked: %d, in readDisconnected: %d", CountIn(d, "closeLocked"), CountIn(d, "readDisconnected")))
+	return strings.Join(l, "; ")
+}
+
 func (w *world) addID(id int64) {
 	for _, x := range w.ids {
 		if x == id {
@@ -214,17 +257,24 @@ func (w *world) addID(id int64) {
 	w.ids = append(w.ids, id)
 }
 
-// accept returns the id number of the new session's default id: 1000+n, or the number
-// already given to the same string (the OS may reuse an address of an earlier connection).
-func (w *world) accept(reject bool, dial bool) int64 {
+// accept runs one accept / dial on P with the given outcome per plugin; path = acc (ServeConn),
+// lis (P's own accept loop on a listener), dial (P.Dial).  It returns the id number of the new
+// session's default id - 1000+n, or the number already given to the same string (the OS may reuse
+// an address of an earlier connection) - and the event's own result: the code of the status the
+// call returned (none on the listener path) and the number of calls of every plugin.
+func (w *world) accept(path string, outs []hookOut, fail func(key, what string)) (int64, string) {
 	n := len(w.pairs)
 	pr := &pair{n: n}
+	w.rec.program(outs)
 	w.rec.mu.Lock()
-	w.rec.reject = reject
-	w.rec.last = nil
+	nh := len(w.rec.hooked)
 	w.rec.mu.Unlock()
+	var got erpc.Session
+	var ret *erpc.Status
+	retKnown := true
 	var wg sync.WaitGroup
-	if dial {
+	switch path {
+	case "dial":
 		wg.Add(1)
 		go func() {
 			defer wg.Done()
@@ -233,42 +283,97 @@ func (w *world) accept(reject bool, dial bool) int64 {
 			pr.qconn = c
 			pr.q, _ = w.Q.ServeConn(c)
 		}()
-		s, _ := w.P.Dial(w.lis.Addr().String())
-		if s != nil {
-			pr.p = s
+		if s, st := w.P.Dial(w.lis.Addr().String()); s != nil {
+			got, ret = s, st
+		} else {
+			ret = st
 		}
 		wg.Wait()
-	} else {
+	case "lis":
+		retKnown = false
+		w.ensureListener()
+		c, err := net.Dial("tcp", w.paddr)
+		Must(err)
+		pr.qconn = c
+		// on Q's side every connection to P's listener has the same remote address: its accept
+		// hook gives the session an id of its own, otherwise it would take over (and close) the
+		// previous one
+		w.qrec.mu.Lock()
+		w.qrec.setID, w.qrec.nextID = true, fmt.Sprintf("q-lis-%d", n)
+		w.qrec.mu.Unlock()
+		pr.q, _ = w.Q.ServeConn(c)
+		w.qrec.mu.Lock()
+		w.qrec.setID, w.qrec.nextID = false, ""
+		w.qrec.mu.Unlock()
+		// the session exists once its first accept hook has run; the accept is over when the
+		// session has left preparing and its goroutine is in the read loop or gone
+		var key interface{}
+		WaitUntil(settleTimeout, func() bool {
+			w.rec.mu.Lock()
+			defer w.rec.mu.Unlock()
+			if len(w.rec.hooked) > nh {
+				key = w.rec.hooked[nh]
+				return true
+			}
+			return false
+		})
+		if key == nil {
+			fail("quiescence", "listener path: the accept hook did not run")
+		} else {
+			ks := key.(erpc.Session)
+			WaitUntil(settleTimeout, func() bool {
+				return erpc.VerifStatusName(erpc.VerifSessionStatus(ks)) != "preparing" && !acceptBusy()
+			})
+			if wasOk(key) {
+				got = ks // the listener path hands nothing back: accepted = was switched to ok
+			}
+		}
+	default:
 		cc, sc := TCPPair()
 		pr.qconn, pr.pconn = cc, sc
 		wg.Add(2)
 		go func() { defer wg.Done(); pr.q, _ = w.Q.ServeConn(cc) }()
 		go func() {
 			defer wg.Done()
-			s, _ := w.P.ServeConn(sc)
-			if s != nil {
-				pr.p = s
+			if s, st := w.P.ServeConn(sc); s != nil {
+				got, ret = s, st
+			} else {
+				ret = st
 			}
 		}()
 		wg.Wait()
 	}
 	w.rec.mu.Lock()
 	pr.key = w.rec.last
+	lastID := w.rec.lastID
+	w.rec.reject = false
+	w.rec.mu.Unlock()
+	pr.hookFail = w.rec.failure()
+	if pr.key != nil {
+		pr.obj, _ = pr.key.(erpc.Session)
+	}
 	idn := int64(1000 + n)
 	for k, v := range w.idStr {
-		if v == w.rec.lastID {
+		if v == lastID {
 			idn = k
 		}
 	}
-	w.idStr[idn] = w.rec.lastID
-	w.rec.reject = false
-	w.rec.mu.Unlock()
-	if pr.p != nil {
-		pr.key = interface{}(pr.p)
+	w.idStr[idn] = lastID
+	if got != nil {
+		pr.p = got
+		pr.key = interface{}(got)
+		pr.obj = got
 	}
 	w.pairs = append(w.pairs, pr)
 	w.addID(idn)
-	return idn
+	retv := VS("none")
+	if retKnown {
+		retv = VZ(int64(ret.Code()))
+		if pr.hookFail != "" && (got != nil || ret.OK()) {
+			fail("hooks", fmt.Sprintf("session %d (%s): the call returned a session / an OK status although %s", n, path, pr.hookFail))
+		}
+	}
+	return idn, VL(retv, w.rec.ranVal(w.k))
 }
 
 func (w *world) numberOf(s erpc.Session) int {
@@ -296,6 +401,18 @@ func (w *world) observeOn(P erpc.Peer, st *Stats, idx int, human string) string 
 	var so []string
 	healthy := map[int]bool{}
 	for _, pr := range w.pairs {
+		if pr.hookFail != "" && pr.obj != nil {
+			// healthy / indexed / handling messages only after the accept or dial hooks succeeded
+			if pr.obj.Health() {
+				fail("hooks", fmt.Sprintf("session %d is healthy although %s", pr.n, pr.hookFail))
+			}
+			if x, ok := P.GetSession(pr.obj.ID()); ok && interface{}(x) == interface{}(pr.obj) {
+				fail("hooks", fmt.Sprintf("session %d is in the index although %s", pr.n, pr.hookFail))
+			}
+			if w.rec.startCount(pr.key) > 0 {
+				fail("hooks", fmt.Sprintf("session %d: a handler started although %s", pr.n, pr.hookFail))
+			}
+		}
 		if pr.p == nil {
 			so = append(so, VL(VS("rej"), VN(int64(w.rec.discCount(pr.key)))))
 			continue
@@ -366,7 +483,15 @@ func (w *world) observeOn(P erpc.Peer, st *Stats, idx int, human string) string 
 	}
 	cnt := P.CountSession()
 	var rng []int
-	P.RangeSession(func(s erpc.Session) bool { rng = append(rng, w.numberOf(s)); return true })
+	P.RangeSession(func(s erpc.Session) bool {
+		rng = append(rng, w.numberOf(s))
+		for _, pr := range w.pairs {
+			if pr.hookFail != "" && pr.obj != nil && interface{}(pr.obj) == interface{}(s) {
+				fail("hooks", fmt.Sprintf("RangeSession yields session %d although %s", pr.n, pr.hookFail))
+			}
+		}
+		return true
+	})
 	sort.Ints(rng)
 	var ro []string
 	for _, k := range rng {
@@ -383,12 +508,15 @@ func (w *world) observeOn(P erpc.Peer, st *Stats, idx int, human string) string 
 
 func runHist(cfg *RunCfg) {
 	st := NewStats("C07", cfg)
-	st.Rule = "hist: random histories (8..22 events, <= 6 sessions) over {accept, dial, hook reject, SetID fresh/colliding/swapping, call, push, local Close, remote close, cut, peer Close, remote call}; distinct by event-kind sequence; non-trivial = contains a close-like event and a later event on some session"
+	st.Rule = "hist: random histories (8..22 events, <= 6 sessions) over {accept through ServeConn / through P's own listener loop / dial, each with an outcome per accept/dial plugin of P (1..3 plugins: nil, OK status object, non-OK status of 8 codes, panic with a string/error/status/int/runtime-error value; the plugins behind the first failure do anything), SetID fresh/colliding/swapping, call, push, local Close, remote close, cut, peer Close, remote call (also to refused sessions)}; distinct by event-kind sequence; non-trivial = contains a close-like event and a later event on some session, or a refused accept/dial and a later event"
 	cw := NewCaseWriter(cfg)
 	distinct := DistinctSet{}
 	r := cfg.Rng
+	watchOk()
 	for i := 0; i < cfg.N; i++ {
-		w := newWorld()
+		nplug := 1 + r.Intn(3)
+		w := newWorldK(nplug, r.Intn(nplug))
+		st.Count(fmt.Sprintf("plugins:%d", nplug))
 		var evIn, evObs, kinds []string
 		human := ""
 		nEv := 8 + r.Intn(15)
@@ -410,23 +538,18 @@ func runHist(cfg *RunCfg) {
 			res = VS("none")
 			switch {
 			case len(w.pairs) == 0 || (k < 18 && len(w.pairs) < 6):
-				reject := r.Intn(6) == 0
-				dial := r.Intn(3) == 0
-				idn := w.accept(reject, dial)
-				kind = "acc"
-				if dial {
-					kind = "dial"
+				outs := genOuts(r, w.k, r.Intn(4) == 0)
+				path := "acc"
+				switch x := r.Intn(12); {
+				case x < 4:
+					path = "dial"
+				case x < 7 && !pclosed:
+					path = "lis"
 				}
-				v := "ok"
-				if reject {
-					v = "rej"
-					kind += "-rej"
-				}
-				name := "acc"
-				if dial {
-					name = "dial"
-				}
-				in = VL(VS(name), VN(idn), VS(v))
+				var idn int64
+				idn, res = w.accept(path, outs, func(key, what string) { st.Fail(i, key, what, human) })
+				kind = path + outsKind(outs)
+				in = VL(VS(path), VN(idn), outsVal(outs))
 			case len(es) == 0:
 				e--
 				if len(w.pairs) >= 6 {
@@ -484,7 +607,7 @@ func runHist(cfg *RunCfg) {
 				pr := es[r.Intn(len(es))]
 				if pr.q != nil {
 					pr.q.Close()
-				} else {
+				} else if pr.qconn != nil {
 					pr.qconn.Close()
 				}
 				kind = "rclose"
@@ -506,11 +629,15 @@ func runHist(cfg *RunCfg) {
 				kind = "pclose"
 				in = VL(VS("pclose"))
 			default:
-				pr := es[r.Intn(len(es))]
+				// the remote end calls: also on a connection whose session was refused
+				pr := w.pairs[r.Intn(len(w.pairs))]
 				kind = "rcall"
 				if pr.q == nil {
 					e--
 					continue
+				}
+				if pr.hookFail != "" {
+					kind = "rcall-refused"
 				}
 				var out string
 				cmd := pr.q.Call("/t/echo", "y", &out)
@@ -519,13 +646,16 @@ func runHist(cfg *RunCfg) {
 			}
 			human += in + " "
 			if !w.settle() {
-				st.Fail(i, "quiescence", "no quiescent state within the watchdog after "+in, human)
+				st.Fail(i, "quiescence", "no quiescent state within the watchdog after "+in+" ("+w.unsettled()+")", human)
 			}
 			if closeSeen {
 				nontrivial = true
 			}
 			switch kind {
 			case "close", "rclose", "cut", "pclose":
+				closeSeen = true
+			}
+			if strings.Contains(kind, "-rej-") {
 				closeSeen = true
 			}
 			st.Count("ev:" + kind)
@@ -541,6 +671,7 @@ func runHist(cfg *RunCfg) {
 			st.Samples = append(st.Samples, human)
 		}
 		w.destroy()
+		forgetOk()
 	}
 	st.Evaluations = cfg.N
 	st.DistinctNontrivial = len(distinct)
